@@ -351,7 +351,10 @@ func runC03(r *simkit.Run, c Cfg) {
 			}
 			return sy.GetHead(bg)
 		})
-		defer cl.Close()
+		defer func() {
+			r.PassThrough(true) // the scheduler goroutine itself must not park
+			cl.Close()
+		}()
 	} else {
 		res = run("SyncAdChain", func() (cid.Cid, error) { return sub.Sub.SyncAdChain(bg, pub.AddrInfo()) })
 	}
